@@ -7,6 +7,7 @@ require (
 	github.com/coredns/coredns v1.10.0
 	github.com/facebookincubator/dns/dnsrocks v0.0.0
 	github.com/miekg/dns v1.1.50
+	github.com/repustate/go-cdb v0.0.0-20160430174706-6a418fad95e2
 	golang.org/x/net v0.34.0
 	golang.org/x/sys v0.29.0
 	pgregory.net/rapid v1.3.0
@@ -31,7 +32,6 @@ require (
 	github.com/prometheus/client_model v0.2.0 // indirect
 	github.com/prometheus/common v0.37.0 // indirect
 	github.com/prometheus/procfs v0.8.0 // indirect
-	github.com/repustate/go-cdb v0.0.0-20160430174706-6a418fad95e2 // indirect
 	github.com/sirupsen/logrus v1.8.1 // indirect
 	golang.org/x/sync v0.10.0 // indirect
 	google.golang.org/protobuf v1.28.1 // indirect
